@@ -4,9 +4,12 @@
 // strconv.ParseUint calls in parseMSuffix / parseNSuffix / parseArrayM.  AbiType/Model.v uses these
 // constants, so a changed bound, flag or binding breaks the proofs that needed the old value.
 //
-// It fails closed (non-zero exit, nothing written) on any construct it cannot classify: an unknown
-// field in a table entry, a non-literal value, a dynamic-closure or reader of an unknown shape, a
-// duplicate type name, a missing function.
+// It fails closed (non-zero exit, nothing written) on any construct it cannot classify in what the type
+// grammar depends on: an unknown field in a table entry, a non-literal name / suffix kind / default
+// suffix / bound, a duplicate type name, a missing function, a numeric parse that is not
+// strconv.ParseUint with literal base and bitSize.  The fields the grammar does not depend on (the
+// dynamic closure, the reader / encoder / decoder bindings) are classified when they have a known
+// shape and emitted as DynUnknown / "?" otherwise, so that only the proofs that need them break.
 package main
 
 import (
@@ -77,11 +80,11 @@ func ident(e ast.Expr, what string) string {
 // singleReturn gives the expression of a function literal whose body is exactly `return <expr>`.
 func singleReturn(fl *ast.FuncLit, what string) ast.Expr {
 	if fl.Body == nil || len(fl.Body.List) != 1 {
-		fail("%s: function body is not a single return", what)
+		return nil
 	}
 	rs, ok := fl.Body.List[0].(*ast.ReturnStmt)
 	if !ok || len(rs.Results) != 1 {
-		fail("%s: function body is not a single return of one value", what)
+		return nil
 	}
 	return rs.Results[0]
 }
@@ -89,10 +92,14 @@ func singleReturn(fl *ast.FuncLit, what string) ast.Expr {
 // dynRule classifies the `dynamic` closure of an entry.
 func dynRule(fl *ast.FuncLit, what string) string {
 	if fl.Type.Params == nil || len(fl.Type.Params.List) != 1 || len(fl.Type.Params.List[0].Names) != 1 {
-		fail("%s: unexpected parameters", what)
+		return "DynUnknown"
 	}
 	param := fl.Type.Params.List[0].Names[0].Name
-	switch r := singleReturn(fl, what).(type) {
+	ret := singleReturn(fl, what)
+	if ret == nil {
+		return "DynUnknown"
+	}
+	switch r := ret.(type) {
 	case *ast.Ident:
 		if r.Name == "false" {
 			return "DynNever"
@@ -112,8 +119,7 @@ func dynRule(fl *ast.FuncLit, what string) string {
 			}
 		}
 	}
-	fail("%s: dynamic closure of an unknown shape", what)
-	return ""
+	return "DynUnknown"
 }
 
 // readerName classifies readExternalData: func(ctx, desc, input) { return F(ctx, desc, input) }.
@@ -124,16 +130,30 @@ func readerName(fl *ast.FuncLit, what string) string {
 			names = append(names, n.Name)
 		}
 	}
-	call, ok := singleReturn(fl, what).(*ast.CallExpr)
+	ret := singleReturn(fl, what)
+	if ret == nil {
+		return "?"
+	}
+	call, ok := ret.(*ast.CallExpr)
 	if !ok || len(call.Args) != len(names) {
-		fail("%s: reader is not a direct call passing its parameters", what)
+		return "?"
 	}
 	for i, a := range call.Args {
 		if id, ok := a.(*ast.Ident); !ok || id.Name != names[i] {
-			fail("%s: reader does not pass its parameters through unchanged", what)
+			return "?"
 		}
 	}
-	return ident(call.Fun, what)
+	if id, ok := call.Fun.(*ast.Ident); ok {
+		return id.Name
+	}
+	return "?"
+}
+
+func softIdent(e ast.Expr) string {
+	if id, ok := e.(*ast.Ident); ok {
+		return id.Name
+	}
+	return "?"
 }
 
 func main() {
@@ -256,15 +276,15 @@ func main() {
 			case "dynamic":
 				switch v := kv.Value.(type) {
 				case *ast.Ident:
-					fl, ok := funcVars[v.Name]
-					if !ok {
-						fail("%s: %s is not a function-valued variable of this file", what, v.Name)
+					if fl, ok := funcVars[v.Name]; ok {
+						e.dynamic = dynRule(fl, what)
+					} else {
+						e.dynamic = "DynUnknown"
 					}
-					e.dynamic = dynRule(fl, what)
 				case *ast.FuncLit:
 					e.dynamic = dynRule(v, what)
 				default:
-					fail("%s: unexpected expression", what)
+					e.dynamic = "DynUnknown"
 				}
 			case "jsonEncodingType":
 				j := ident(kv.Value, what)
@@ -273,22 +293,28 @@ func main() {
 				}
 				e.json = j
 			case "readExternalData":
-				fl, ok := kv.Value.(*ast.FuncLit)
-				if !ok {
-					fail("%s: expected a function literal", what)
+				if fl, ok := kv.Value.(*ast.FuncLit); ok {
+					e.reader = readerName(fl, what)
+				} else {
+					e.reader = softIdent(kv.Value)
 				}
-				e.reader = readerName(fl, what)
 			case "encodeABIData":
-				e.encode = ident(kv.Value, what)
+				e.encode = softIdent(kv.Value)
 			case "decodeABIData":
-				e.decode = ident(kv.Value, what)
+				e.decode = softIdent(kv.Value)
 			default:
 				fail("%s: unknown field (the translator must be taught what it means)", what)
 			}
 		}
-		for _, req := range []string{"name", "dynamic", "readExternalData", "encodeABIData", "decodeABIData"} {
-			if !e.seen[req] {
-				fail("entry %q: field %s missing", e.name, req)
+		if !e.seen["name"] {
+			fail("%s: entry without a name", fset.Position(cl.Pos()))
+		}
+		if e.dynamic == "" {
+			e.dynamic = "DynUnknown"
+		}
+		for _, f := range []*string{&e.reader, &e.encode, &e.decode} {
+			if *f == "" {
+				*f = "?"
 			}
 		}
 		if e.json == "" {
@@ -352,8 +378,9 @@ Local Open Scope string_scope.
 Local Open Scope N_scope.
 
 Inductive suffix_kind := SuffixNone | SuffixMOptional | SuffixMRequired | SuffixMxNRequired.
-(* the [dynamic] closure of an entry: constant false / constant true / tc.elementarySuffix == "" *)
-Inductive dyn_rule := DynNever | DynAlways | DynIfNoSuffix.
+(* the [dynamic] closure of an entry: constant false / constant true / tc.elementarySuffix == "" /
+   a shape the translator does not know *)
+Inductive dyn_rule := DynNever | DynAlways | DynIfNoSuffix | DynUnknown.
 Inductive json_enc := JSONEncodingTypeBool | JSONEncodingTypeInteger | JSONEncodingTypeBytes
                     | JSONEncodingTypeFloat | JSONEncodingTypeString.
 
